@@ -194,8 +194,10 @@ func hC20KMeans(minN, maxN, maxDim, maxIterBound, fixedK int) {
 		vAssert(a >= 0 && a < len(cents), "assignment-in-range")
 		_ = i
 	}
-	// determinism: a second call on the same input gives bit-identical output
+	// determinism: a second call on the same input gives bit-identical output (also under the other map iteration order)
+	vMapOrder(true)
 	cents2, assign2 := KMeans(vecs, k, dist, maxIter)
+	vMapOrder(false)
 	vAssert(len(cents2) == len(cents) && len(assign2) == len(assign), "kmeans-deterministic-shape")
 	for i := range cents {
 		if i < len(cents2) {
@@ -230,8 +232,12 @@ func hC20KMeans(minN, maxN, maxDim, maxIterBound, fixedK int) {
 
 // training an index twice on the same data gives search-identical indexes
 func H_C20_train_twice() {
-	kind := vChoose("kind", 3)
+	vReplayAttempts = 40 // natively the two trainings meet the same map order by chance about every other time
+	kind := vChoose("kind", 4)
 	data := [][]float32{{1, 0}, {0.5, 2}, {4, 4}, {4.5, 3}, {-2, 1}, {-2.5, 0.5}, {1, 1}, {3, -1}, {0, 0.25}, {5, 5}, {2.5, 2.5}, {-1, -1}}
+	if kind == 3 { // IVFPQ with two coarse clusters needs 20 training vectors
+		data = append(data, [][]float32{{6, 5.5}, {5.5, 6}, {-3, -0.5}, {-3.5, 1.5}, {0.25, -2}, {7, 4}, {-1.5, 2}, {3.5, 3.25}}...)
+	}
 	mk := func() VectorIndex {
 		nodes := make([]VectorNode, len(data))
 		for i, d := range data {
@@ -245,14 +251,22 @@ func H_C20_train_twice() {
 			idx, _ = NewPQIndex(2, L2Squared, 2, 1)
 		case 2:
 			idx, _ = NewIVFPQIndex(2, L2Squared, 1, 2, 1)
+		case 3:
+			idx, _ = NewIVFPQIndex(2, L2Squared, 2, 2, 1)
 		}
+		vAssert(idx != nil, "constructor-ok")
 		vAssert(idx.Train(nodes) == nil, "train-ok")
 		for i, d := range data {
 			vAssert(idx.Add(*NewVectorNodeWithID(uint32(i+1), vCopy(d))) == nil, "add-ok")
 		}
 		return idx
 	}
-	a, b := mk(), mk()
+	// the second training runs with the engine's map iteration order reversed (another legal Go order; natively Go
+	// randomises it): "identical output for identical input" must not hang on the order in which a map is ranged over
+	a := mk()
+	vMapOrder(true)
+	b := mk()
+	vMapOrder(false)
 	// trained state bit-identical (read in-package)
 	switch ia := a.(type) {
 	case *IVFIndex:
